@@ -1,7 +1,7 @@
 //@unit velocity
 //@props C12
-// Contracts on vls-core/src/util/velocity.rs (VelocityControl), the window lemma of C12
-// lives in lemmas/velocity_window.rs (included below) and talks about vc_step only.
+// Contracts on vls-core/src/util/velocity.rs (VelocityControl); the window lemma of C12 over histories
+// lives in unit velocity_window (lemmas/velocity_window.rs) and talks about vc_step only.
 use vstd::prelude::*;
 use vstd::std_specs::cmp::OrdSpec;
 use core::cmp::min;
@@ -140,8 +140,6 @@ pub proof fn lemma_vsum_ge_elem(s: Seq<u64>, i: int)
         lemma_vsum_ge_elem(s.drop_last(), i);
     }
 }
-
-//@include lemmas/velocity_window.rs
 
 } // verus!
 fn main() {}
